@@ -3,14 +3,30 @@ import EkwVerif.Props.C12
 instance : Inhabited EkwVerif.Export.PV := ⟨.none⟩
 open Lean EkwVerif.Drive EkwVerif.Export
 
+def parseKey (j : Json) : Key :=
+  match getStr j "k" with
+  | "str" => .str (getStr j "v")
+  | "int" => .int (getInt j "v")
+  | "bool" => .bool (getBool j "v")
+  | _ => .none
+
+def jKey : Key → Json
+  | .str s => Json.mkObj [("k", "str"), ("v", Json.str s)]
+  | .int i => Json.mkObj [("k", "int"), ("v", toJson i)]
+  | .bool b => Json.mkObj [("k", "bool"), ("v", Json.bool b)]
+  | .none => Json.mkObj [("k", "none")]
+
 partial def parsePV (j : Json) : PV :=
   match getStr j "t" with
   | "bool" => .bool (getBool j "v")
   | "int" => .int (getInt j "v")
   | "str" => .str (getStr j "v")
+  | "float" => .float (getBool j "nan") (getStr j "v")
+  | "atom" => .atom (getBool j "ref") (getNat j "id")
+  | "hook" => .hook (getNat j "id") (match j.getObjVal? "v" with | .ok p => parsePV p | _ => .none)
   | "list" => .list ((getArr j "v").map parsePV)
   | "tuple" => .tuple ((getArr j "v").map parsePV)
-  | "dict" => .dict ((getArr j "v").map (fun e => match asArr e with | [k, v] => (asStr k, parsePV v) | _ => ("", .none)))
+  | "dict" => .dict ((getArr j "v").map (fun e => match asArr e with | [k, v] => (parseKey k, parsePV v) | _ => (.none, .none)))
   | _ => .none
 
 partial def jPV : PV → Json
@@ -18,9 +34,12 @@ partial def jPV : PV → Json
   | .bool b => Json.mkObj [("t", "bool"), ("v", Json.bool b)]
   | .int i => Json.mkObj [("t", "int"), ("v", toJson i)]
   | .str s => Json.mkObj [("t", "str"), ("v", Json.str s)]
+  | .float n r => Json.mkObj [("t", "float"), ("nan", Json.bool n), ("v", Json.str r)]
+  | .atom b i => Json.mkObj [("t", "atom"), ("ref", Json.bool b), ("id", toJson i)]
+  | .hook i s => Json.mkObj [("t", "hook"), ("id", toJson i), ("v", jPV s)]
   | .list l => Json.mkObj [("t", "list"), ("v", Json.arr (l.map jPV).toArray)]
   | .tuple l => Json.mkObj [("t", "tuple"), ("v", Json.arr (l.map jPV).toArray)]
-  | .dict d => Json.mkObj [("t", "dict"), ("v", Json.arr (d.map (fun e => Json.arr #[Json.str e.1, jPV e.2])).toArray)]
+  | .dict d => Json.mkObj [("t", "dict"), ("v", Json.arr (d.map (fun e => Json.arr #[jKey e.1, jPV e.2])).toArray)]
 
 def parseNode (j : Json) : Node :=
   { name := getStr j "name", outputs := (getArr j "outputs").map asStr,
@@ -63,15 +82,26 @@ def jSer (d : List (String × SNode)) : Json := Json.arr (d.map (fun e => Json.a
 
 def wfB (g : Graph) : Bool :=
   decide ((g.nodes.map (·.name)).Nodup) && topoFrom [] g.nodes &&
-  g.nodes.all (fun n => decide ((n.inputs.map (·.1)).Nodup)) && (graphNodes g).length == g.nodes.length
+  g.nodes.all (fun n => decide ((n.inputs.map (·.1)).Nodup)) && (graphNodes g).length == g.nodes.length &&
+  g.nodes.all (fun n => n.inputs.all (fun i => decide (i.1 ∉ EkwVerif.Gen.nodeInitKw)))
 
-def jRound (orig : Graph) (r : Except Err Graph) : Json :=
+/-- identities dill hands out to objects it pickles by value (the harness renames them) -/
+def freshBase : Nat := 1000000
+
+/-- the harness's inverting node factory: a payload `{"__c12hook__": id, "v": s}` is turned back into
+the object `id` whose `serialise()` returns that dict -/
+def invHook : PV → PV
+  | .dict [(.str "__c12hook__", .int id), (.str "v", s)] => .hook id.toNat (.dict [(.str "__c12hook__", .int id), (.str "v", s)])
+  | p => p
+
+def jRound (shared : Bool) (orig : Graph) (r : Except Err Graph) : Json :=
   match r with
   | .error .keyError => Json.mkObj [("ok", Json.bool false), ("err", "KeyError")]
   | .error .attributeError => Json.mkObj [("ok", Json.bool false), ("err", "AttributeError")]
+  | .error .typeError => Json.mkObj [("ok", Json.bool false), ("err", "TypeError")]
   | .ok g' =>
     Json.mkObj [("ok", Json.bool true), ("nodes", Json.arr ((graphNodes g').map jNode).toArray),
-      ("sinks", strs g'.sinks), ("eq", Json.bool (graphEq g' orig)), ("eq_rev", Json.bool (graphEq orig g')),
+      ("sinks", strs g'.sinks), ("eq", Json.bool (graphEq shared g' orig)), ("eq_rev", Json.bool (graphEq shared orig g')),
       ("all_reachable", Json.bool ((graphNodes g').length == g'.nodes.length))]
 
 def c12Step (_ : Unit) (j : Json) : Unit × Json :=
@@ -79,14 +109,19 @@ def c12Step (_ : Unit) (j : Json) : Unit × Json :=
   | "graph" =>
     let g : Graph := { nodes := (getArr j "nodes").map parseNode, sinks := (getArr j "sinks").map asStr }
     let ser := serialise g
+    let dict := deserialise R ser
     ((), Json.mkObj [("wf", Json.bool (wfB g)), ("reach", strs ((graphNodes g).map (·.name))),
-      ("ser", jSer ser), ("json_ser", jSer (jsonNorm ser)),
-      ("dict", jRound g (deserialise ser)), ("json", jRound g (deserialise (jsonNorm ser)))])
+      ("self_eq", Json.bool (graphEq true g g)),
+      ("ser", jSer ser), ("json_ser", if jsonOk ser then jSer (jsonNorm ser) else Json.null),
+      ("dict", jRound true g dict), ("json", jRound false g (jsonTrip R g)),
+      ("file", jRound false g (fileTrip R (dillPV (· + freshBase)) g)),
+      ("dict_inv", jRound true g (dict.map (withFactory invHook)))])
   | "deser" =>
     let data := (getArr j "data").map (fun e => match asArr e with
       | [k, v] => (asStr k, parseSNode v)
       | _ => ("", { outputs := [], inputs := [], payload := none }))
-    ((), Json.mkObj [("deser", jRound { nodes := [], sinks := [] } (deserialise data))])
+    ((), Json.mkObj [("deser", jRound true { nodes := [], sinks := [] } (deserialise R data))])
+  | "reserved" => ((), Json.mkObj [("reserved", strs R), ("ctor", strs EkwVerif.Gen.nodeInitKw)])
   | _ => ((), Json.str "bad-op")
 
 def main : IO Unit := runLoop () c12Step
